@@ -68,3 +68,46 @@ def run(ctx, rnd):
                     ctx.fail("P:C12:own-definition", case, got, v["ref"])
         finally:
             tzp.use_default()
+    # ------------------------------------------------------------- capacity: many distinct custom zones in one process
+    # (a bounded or evicting cache must not take a definition away from the calendar that contains it)
+    # spec/TzCacheCap: several ids; OwnDefinition holds for the unbounded first-wins cache and is refuted for an evicting one
+    capc = {"Ids": {1, 2, 3}, "Defs": {60, 120}, "MaxItems": 3}
+    ctx.mc("MC_TzCacheCap", cfg_text(spec="Spec", constants={**capc, "Cap": 0}, invariants=["OwnDefinition"]), workers=4, timeout=600)
+    rcap = ctx.mc("MC_TzCacheCap", cfg_text(spec="Spec", constants={**capc, "Cap": 2}, invariants=["OwnDefinition"]),
+                  expect_ok=False, count=False, workers=1, timeout=600)
+    if rcap.violated != "OwnDefinition":
+        raise Machinery("an evicting cache should be refuted against OwnDefinition")
+    def vtz(tzid, off):
+        return ["BEGIN:VTIMEZONE", f"TZID:{tzid}", "BEGIN:STANDARD", "DTSTART:19700101T000000", f"TZOFFSETFROM:{fmt_off(off)}",
+                f"TZOFFSETTO:{fmt_off(off)}", f"TZNAME:C{off}", "END:STANDARD", "END:VTIMEZONE"]
+
+    def cal_of(defs, uses):
+        out = ["BEGIN:VCALENDAR", "VERSION:2.0", "PRODID:verif"]
+        for tzid, off in defs:
+            out += vtz(tzid, off)
+        for n, tzid in enumerate(uses):
+            out += ["BEGIN:VEVENT", f"UID:{n}", f"DTSTART;TZID={tzid}:20240101T120000", "END:VEVENT"]
+        return "\r\n".join(out + ["END:VCALENDAR"]) + "\r\n"
+
+    def offsets(text):
+        return [(lambda o: None if o is None else int(o.total_seconds() // 60))(e["DTSTART"].dt.utcoffset())
+                for e in Calendar.from_ical(text).walk("VEVENT")]
+
+    for prov in ("zoneinfo", "pytz"):
+        try:
+            tzp.use(prov)
+            for n in ((70, 140, 300) if ctx.quick else (70, 140, 300, 600, 1100)):
+                offs = {f"Verif/Cap-{n}-{i}": 60 + (i * 15) % 600 for i in range(n)}
+                for tzid, off in offs.items():
+                    Calendar.from_ical(cal_of([(tzid, off)], [tzid]))
+                oldest, mid = f"Verif/Cap-{n}-0", f"Verif/Cap-{n}-{n // 2}"
+                new = f"Verif/Cap-{n}-new"
+                for defs in ([(oldest, offs[oldest]), (new, 45)], [(mid, offs[mid]), (oldest, offs[oldest]), (new, 45), (new + "2", 75)]):
+                    uses = [d[0] for d in defs]
+                    want = [d[1] for d in defs]
+                    got = offsets(cal_of(defs, uses))
+                    ctx.case(("capacity", prov, n, len(defs)), True)
+                    if got != want:
+                        ctx.fail("P:C12:own-definition", {"capacity": n, "defs": defs, "provider": prov, "impl_equal": False, "kf": False}, got, want)
+        finally:
+            tzp.use_default()
